@@ -261,7 +261,7 @@ def plan(tier, seed):
             items.append([cid, False, None])
             items.append([cid, True, None])
             items.append([cid, False, [21, 22, 24, 25, 26][int(rng.integers(0, 5))]])
-        nsh, budget = 64, 1500
+        nsh, budget = 64, 400
     shards = [{"kind": "catalog", "items": items[i::nsh], "budget_s": budget} for i in range(nsh)]
     n = 16 if tier == "quick" else 48
     shards += [{"kind": "generated", "shard": i, "seed": seed, "examples": 12 if tier == "quick" else 70} for i in range(n)]
